@@ -94,7 +94,7 @@ func checkMethod(t *testing.T, prop string, b *rt.Built, s *m.Service, meth *m.M
 	run := func(c *Case) string {
 		obs, err := b.H.Do(c.Harness())
 		if err != nil {
-			return "INCONCLUSIVE harness: " + err.Error()
+			return "INCONCLUSIVE: harness: " + err.Error()
 		}
 		return judge(d, s, meth, c, obs)
 	}
